@@ -8,6 +8,9 @@ ops (trace IDs are opaque percent-encoded tokens; the hash values come as `ext` 
   stress <id> <rate>     ext wyhash <id> = <h>    obs (same shape)
   frac det|stress <seed> <n> <rate>   ext hashes = h1,…,hn    obs A <kept> B <kept> n <n>
 A sampler whose construction panics with an integer division by zero answers `panic-div0`.
+One long-lived StressRelief per case (case args smode=<never|monitor|always> srate=<n>, default never/100):
+  sreload <mode> <rate>   (no obs)      srecalc   obs stressed=<bool>
+  sask <id>   ext wyhash <id> = <h>     obs A <long-lived answer> B <answer of a fresh instance at the rate configured last>
 -/
 open Refinery.Model.Deterministic Oracle
 
@@ -34,8 +37,35 @@ def extHashes (exts : List (List String)) : Option (List Nat) :=
     | ["hashes", "=", v] => some (parseNatList v)
     | _ => none
 
-def determStep (st : Unit) (op : List String) (exts : List (List String)) : Unit × Option String :=
+def parseMode : String → Option Mode
+  | "never" => some .never
+  | "monitor" => some .monitor
+  | "always" => some .always
+  | _ => none
+
+/-- model state: the long-lived `StressRelief` and the rate configured last -/
+structure OSt where
+  live : Outcome Relief
+  cfgRate : Nat
+
+def determStep (st : OSt) (op : List String) (exts : List (List String)) : OSt × Option String :=
   match op with
+  | ["sreload", mode, rate] =>
+    match parseMode mode, rate.toNat? with
+    | some m, some r => ({ live := Relief.run st.live [.reload m r], cfgRate := r }, none)
+    | _, _ => (st, some "bad-op")
+  | ["srecalc"] =>
+    let l := Relief.run st.live [.recalc]
+    ({ st with live := l }, some (match l with
+      | .ok r => s!"stressed={r.stressed}"
+      | .panicDivZero => "panic-div0"))
+  | ["sask", id] =>
+    match extVal exts "wyhash" id with
+    | some h =>
+      let a := outStr (match st.live with | .ok r => .ok (r.s.get h) | .panicDivZero => .panicDivZero)
+      let b := outStr (stressSample st.cfgRate h)
+      (st, some s!"A {a} B {b}")
+    | none => (st, some "bad-ext")
   | ["det", id, rate] =>
     match rate.toInt?, extVal exts "sha1" id with
     | some r, some h => let o := outStr (detSample r h); (st, some s!"A {o} B {o}")
@@ -76,6 +106,7 @@ structure Seen where
 
 structure MSt where
   seen : List Seen := []
+  cfgRate : Nat := 100        -- rate configured last on the long-lived StressRelief (from the ops)
 
 def fail (sig what : String) : Fail := { prop := "C10", sig := sig, what := what }
 
@@ -169,16 +200,27 @@ def determMon (m : MSt) (op : List String) (_ : List (List String)) (obs : Optio
     match rate.toInt? with
     | some r => monSample m "stress" id r o
     | none => (m, [])
+  | ["sreload", _, rate], _ =>
+    match rate.toNat? with
+    | some r => ({ m with cfgRate := r }, [])
+    | none => (m, [])
+  -- the long-lived instance must answer as the pure function of (trace ID, rate configured last):
+  -- same checks as for `stress`, with instance A = long-lived, B = fresh at that rate
+  | ["sask", id], some o => monSample m "stress" id m.cfgRate o
   | ["frac", kind, _, _, rate], some o =>
     match rate.toInt? with
     | some r => if kind == "det" || kind == "stress" then monFrac m kind r o else (m, [])
     | none => (m, [])
   | _, _ => (m, [])
 
-def comp : Component Unit MSt where
-  init := fun _ => ()
+def hdrRate (args : List String) : Nat := ((kv args "srate").getD "100").toNat?.getD 100
+
+def comp : Component OSt MSt where
+  init := fun args =>
+    let m := (parseMode ((kv args "smode").getD "never")).getD .never
+    { live := Relief.init m (hdrRate args), cfgRate := hdrRate args }
   step := determStep
-  minit := fun _ => {}
+  minit := fun args => { cfgRate := hdrRate args }
   mon := determMon
 
 def main : IO Unit := do runLoop comp (← IO.getStdin)
